@@ -1,38 +1,84 @@
 ------------------------- MODULE Trace_E2imageLayout -------------------------
-(* C19 conformance, second binding: the literal qcow2 writer of E2image.tla (Part 2) is run by TLC with the REAL constants
-   of one observed image (NB = blocks of the filesystem, L2N = cluster_size / 8, RPB = cluster_size / 2, CacheN =
-   min(l1_size, 512)) on the set of blocks the real e2image -Q mapped, one state per block of the filesystem, and the
-   file it builds must be the file the real tool wrote: same data cluster for every block, same L2 table offsets in the
-   L1 table, same refcount blocks in the refcount table, same file size.  All invariants of the model (no cluster written
-   twice, data where it was recorded, refcounts exact, conversion equals raw) are evaluated on every state of that run.
+(* C19 conformance, second binding: the literal qcow2 writer and reader of E2image.tla (Part 2) and its raw writer are run
+   by TLC with the REAL constants of one observed filesystem (NB = blocks of the filesystem, L2N = cluster_size / 8, RPB =
+   cluster_size / 2, CacheN = min(l1_size, 512), CBits = log2(cluster_size)) on the set of blocks the real e2image -Q
+   mapped, one state per MAPPED block (the blocks in between do not change the writer's state), and the three files the
+   model builds must be the three files the real tool wrote:
+     the qcow2 file      same data cluster for every block, same L2 table offsets in the L1 table, same refcount blocks in
+                         the refcount table, same file size                                              (LayoutMatches)
+     the direct raw file the non-zero blocks of `e2image -r` are exactly the writes of RawFile: block b at position
+                         Shl(b, WRawPos), holding the bytes of source block Shl(b, WSrcPos)               (RawMatches)
+     the converted file  the non-zero blocks of `e2image -r <qcow2>` are exactly the writes of ConvFile: the cluster of
+                         (l1_index, l2_index) at position Shl(l1_index * L2N + l2_index, WOffOut)         (ConvMatches)
+   All invariants of the model (no cluster written twice, data where it was recorded, refcounts exact, conversion equals
+   raw) are evaluated on every state of that run.
 
-   The trace is one JSON line: map[b + 1] = file cluster of block b (0 = unmapped), l1[i + 1] = cluster of the L2 table of
-   L1 slot i (0 = none), rt[i + 1] = cluster of refcount block i, file_clusters = size of the file in clusters.
-   Model assumption (checked by the harness before a line is written): the L1 table and the refcount table take one
-   cluster each.                                                                                                      *)
+   The trace is one JSON line:
+     map   sequence of <<b, c>>, ascending in b: block b is mapped to file cluster c
+     l1    l1[i + 1] = cluster of the L2 table of L1 slot i (0 = none);  rt[i + 1] = cluster of refcount block i
+     file_clusters, cbits
+     raw / conv   sequences of <<p, id>>: block position p of the file is not all zero and holds the bytes of source block
+                  id - 1 (the harness looks the bytes up in the source: position p itself first, then any other block;
+                  id = -1: bytes that are no block of the source);  raw_blocks / conv_blocks = file size / block size
+                  (-1 when the size is not a multiple of the block size)
+   Model assumption (checked by the harness before a line is written): the refcount table takes one cluster.          *)
 EXTENDS E2image, Json, IOUtils
 Tr == ndJsonDeserialize(IOEnv.TRACE)[1]
-NZ == {b \in Blocks : Tr.map[b + 1] # 0}
-\* bound of the model file for this run (the cfg substitutes it for MaxC; WriterSane checks the writer stays inside)
+MapSeq == Tr.map
+NMap == Len(MapSeq)
+NZ == {MapSeq[k][1] : k \in 1 .. NMap}
+\* substituted by the cfg: bound of the model file for this run (WriterSane checks the writer stays inside), real cluster bits
 ObsMaxC == Tr.file_clusters + 8
+ObsCBits == Tr.cbits
 
+\* the model's variables: src is kept on the mapped blocks only, raw / conv are the sparse files (position -> content),
+\* nb is the index into MapSeq
 LInit == /\ phase = "raw"
-         /\ cls = [b \in Blocks |-> "dirdata"]
-         /\ src = [b \in Blocks |-> IF b \in NZ THEN 1 ELSE 0]
+         /\ cls = <<>>
+         /\ src = [b \in NZ |-> 1]
          /\ all = FALSE
          /\ marked = NZ
-         /\ raw = [b \in Blocks |-> IF b \in NZ THEN b + 1 ELSE 0]
+         /\ raw = RawFile(NZ)
          /\ q = QState0 /\ nb = 0 /\ conv = <<>>
-LNext == QInit \/ QBlock \/ QFinish \/ ConvertBack
+LStart == /\ phase = "raw" /\ phase' = "qblk"
+          /\ q' = QPrologue /\ nb' = 1
+          /\ UNCHANGED <<cls, src, all, marked, raw, conv>>
+LBlock == /\ phase = "qblk" /\ nb <= NMap
+          /\ LET b == MapSeq[nb][1] IN q' = QBlockStep(q, b, Read(b))
+          /\ nb' = nb + 1
+          /\ UNCHANGED <<phase, cls, src, all, marked, raw, conv>>
+LFinish == /\ phase = "qblk" /\ nb = NMap + 1 /\ phase' = "conv"
+           /\ q' = QEpilogue(q)
+           /\ UNCHANGED <<cls, src, all, marked, raw, nb, conv>>
+LConvert == /\ phase = "conv" /\ phase' = "done"
+            /\ conv' = ConvFile(q.file)
+            /\ UNCHANGED <<cls, src, all, marked, raw, q, nb>>
+LNext == LStart \/ LBlock \/ LFinish \/ LConvert
 LSpec == LInit /\ [][LNext]_vars
 
+\* ---- the model's own contract on this run (MapExact / ConvertEqualsRaw of E2image.tla, restated on the sparse files)
+LMapExact ==
+    Finished => /\ \A b \in NZ : LET m == Lookup(q.file, b) IN m > 0 /\ q.file[m].t = "data" /\ q.file[m].v = b + 1 /\ q.file[m].d = <<b>>
+                /\ \A i \in {k \in 0 .. L1N - 1 : q.file[L1Off].d[k] # 0} :
+                      LET t == q.file[q.file[L1Off].d[i]] IN
+                      t.t = "l2" /\ {i * L2N + j : j \in {x \in 0 .. L2N - 1 : t.d[x] # 0}} = {b \in NZ : b \div L2N = i}
+LConvertEqualsRaw == phase = "done" => conv = raw
+
+\* ---- the real files
+Pairs(F)    == {<<p, F[p]>> : p \in DOMAIN F}
+ObsPairs(s) == {<<s[k][1], s[k][2]>> : k \in 1 .. Len(s)}
 LayoutMatches ==
-    Finished => /\ Len(Tr.map) = NB /\ Len(Tr.l1) = L1N /\ Len(Tr.rt) <= Cardinality(DOMAIN q.file[RtOff].d)   \* (keeps the comparison total)
-                /\ \A b \in Blocks : Lookup(q.file, b) = Tr.map[b + 1]
+    Finished => /\ Len(Tr.l1) = L1N /\ Len(Tr.rt) <= Cardinality(DOMAIN q.file[RtOff].d)   \* (keeps the comparison total)
+                /\ \A k \in 1 .. NMap : Lookup(q.file, MapSeq[k][1]) = MapSeq[k][2]
                 /\ \A i \in 0 .. L1N - 1 : q.file[L1Off].d[i] = Tr.l1[i + 1]
                 /\ \A i \in 1 .. Len(Tr.rt) : q.file[RtOff].d[i - 1] = Tr.rt[i]
                 /\ \A i \in DOMAIN q.file[RtOff].d : i >= Len(Tr.rt) => q.file[RtOff].d[i] = 0
                 /\ FileSize(q.file) = Tr.file_clusters
+RawMatches  == Pairs(raw) = ObsPairs(Tr.raw) /\ Tr.raw_blocks = NB
+ConvMatches == phase = "done" => Pairs(conv) = ObsPairs(Tr.conv) /\ Tr.conv_blocks = NB
+\* the universe realises the boundary catalogue: every target block of the integer-width boundaries is mapped (only listed
+\* in the cfg of the wide_* filesystems; a failure means the generator did not build what the catalogue asks for)
+Covers == WidthTargets(CBits) \subseteq NZ /\ NB > 2 ^ (32 - CBits)
 \* the run must reach the end (a shorter run means the model got stuck: check broken, not a violation)
-LayoutDone == TLCGet("stats").diameter = NB + 4
+LayoutDone == TLCGet("stats").diameter = NMap + 4
 =============================================================================
